@@ -497,13 +497,14 @@ def run(ctx: Ctx) -> Outcome:
             out.hit(stream)
         breq = [b[0] for b in batches]
         banswers = common.model(breq, driver="Links") if breq else []
-        for (_, queries, implvals, spec), ans in zip(batches, banswers):
+        for (_, queries, implvals, spec, *pre), ans in zip(batches, banswers):
             if "ok" not in ans:
                 raise common.InfraError(f"links.batch failed: {ans}")
+            stream = pre[0] if pre else "loader."  # "history.": `spec` is the history case (layout + steps so far)
             for q, iv, mv in zip(queries, implvals, ans["ok"]):
                 if iv != mv:
-                    out.disagree("loader." + q[0], {"layout": spec, "query": q}, iv, mv)
-                out.hit("loader." + q[0] + (".err" if "e" in iv else ""))
+                    out.disagree(stream + q[0], dict(spec, query=q) if pre else {"layout": spec, "query": q}, iv, mv)
+                out.hit(stream + q[0] + (".err" if "e" in iv else ""))
                 out.traces_validated += 1
     return out
 
@@ -674,6 +675,9 @@ def check_layout(ctx, out, mdl, spec, helpers, core, batches, stats, per_file):
 
     batches.append(({"op": "links.batch", "trees": view.to_model(), "queries": queries}, queries, implvals, spec))
 
+    # histories last: they change the positions of elements (the view above is the state before them)
+    history_stream(ctx, out, mdl, view, spec, tag, helpers, batches)
+
 
 def el_json(view: RawView, e) -> dict:
     return {"ids": el_ids(e), "xtype": view.xtypes.get(id(e))}
@@ -751,6 +755,461 @@ def accessor_stream(ctx, out, mdl, view: RawView, spec, tag):
                 or back != case["targets"]):
             out.find("LinkAccessor.__create_link|reference-element-or-readback",
                      f"wrote {raw!r} (Capella's form {want!r}), read back {back}", case)
+
+
+# ------------------------------------------------------------------ histories: write, move across files, write again
+#
+# A reference attribute is judged on the text the library produced at EVERY write: each link in it must be spelled
+# for the positions referrer and target have NOW, whatever they were when the attribute was written before.
+
+ATTR_WRITERS = ("AttrProxyAccessor", "PhysicalLinkEndsAccessor")
+LINK_WRITERS = ("LinkAccessor",)
+_WRITERS_CACHE: dict = {}
+
+
+def link_writers(cls) -> list[tuple[str, str]]:
+    """(kind, attribute name) of every accessor of the class that writes link text:
+    attr-list / attr-single (AttrProxyAccessor), ends (PhysicalLinkEndsAccessor, fixed length), link-list / link-single
+    (LinkAccessor: one reference element per member)"""
+    if cls not in _WRITERS_CACHE:
+        found = []
+        for name in sorted(dir(cls)):
+            if name.startswith("_"):
+                continue
+            try:
+                acc = getattr(cls, name, None)
+            except Exception:  # noqa: BLE001
+                continue
+            tn = type(acc).__name__
+            if tn == "AttrProxyAccessor":
+                found.append(("attr-list" if acc.aslist is not None else "attr-single", name))
+            elif tn == "PhysicalLinkEndsAccessor":
+                found.append(("ends", name))
+            elif tn == "LinkAccessor" and getattr(acc, "tag", None):
+                found.append(("link-list" if acc.aslist is not None else "link-single", name))
+        _WRITERS_CACHE[cls] = found
+    return _WRITERS_CACHE[cls]
+
+
+def containing_list(obj, child_elem) -> str | None:
+    """name of the DirectProxyAccessor list of `obj` that holds the element: the list to move it through"""
+    cls = type(obj)
+    for name in sorted(dir(cls)):
+        if name.startswith("_"):
+            continue
+        acc = getattr(cls, name, None)
+        if type(acc).__name__ != "DirectProxyAccessor" or getattr(acc, "aslist", None) is None or getattr(acc, "rootelem", None):
+            continue
+        try:
+            lst = getattr(obj, name)
+        except Exception:  # noqa: BLE001
+            continue
+        if any(getattr(o, "_element", None) is child_elem for o in lst):
+            return name
+    return None
+
+
+class History:
+    """Executes the steps of one history on a loaded model and judges every write.  A step is a JSON-able dict, so
+    that a finding carries the exact steps done so far as its replay."""
+
+    def __init__(self, out: Outcome, mdl, view: RawView, spec, helpers, hbatches: list | None):
+        self.out, self.mdl, self.view, self.spec, self.helpers, self.hbatches = out, mdl, view, spec, helpers, hbatches
+        self.loader = mdl._loader
+        self.root_index = {id(root): fi for fi, (_, root) in enumerate(view.files)}
+        self.steps: list[dict] = []
+        self.failed: list[str] = []
+        self.referrer = None  # lxml element
+        self.name = self.kind = None
+        self.intended: list = []  # lxml elements, the list the relation must hold now
+        self.moved_role = "none"
+        self.lst = None  # a list object kept over several operations
+
+    # -- raw facts
+    def where(self, e) -> int | None:
+        r = e
+        while r.getparent() is not None:
+            r = r.getparent()
+        return self.root_index.get(id(r))
+
+    def el(self, ident: str):
+        c = self.view.index.get(ident, [])
+        els = {id(e): e for _, e in c}
+        if len(els) != 1:
+            raise LookupError(ident)
+        return next(iter(els.values()))
+
+    def obj(self, e):
+        return self.mdl.by_uuid(e.get("id"))
+
+    def acc(self):
+        return getattr(type(self.obj(self.referrer)), self.name)
+
+    def case(self) -> dict:
+        return {"kind": "history", "layout": self.spec, "steps": list(self.steps)}
+
+    def find(self, sig: str, what: str):
+        self.failed.append(what)
+        self.out.find(sig, what[:400], self.case())
+
+    def link_elems(self) -> list:
+        acc = self.acc()
+        return [c for c in self.referrer if isinstance(c.tag, str) and c.tag == acc.tag and own_xtype(c) in acc.xtypes]
+
+    # -- steps
+    def do(self, step: dict) -> bool:
+        """execute one step; False if the implementation refused it (then the history ends)"""
+        self.steps.append(step)
+        op = step["op"]
+        if op == "start":
+            self.referrer, self.name, self.kind = self.el(step["referrer"]), step["acc"], step["kind"]
+            self.intended, self.lst = [], None
+            return True
+        if op == "move":
+            x, q = self.el(step["x"]), self.el(step["to"])
+            before = self.where(x)
+            if before is None or self.where(q) is None:
+                return False
+            try:
+                lst = getattr(self.obj(q), step["list"])
+                lst.insert(min(step["index"], len(lst)), self.obj(x))
+            except Exception as e:  # noqa: BLE001  (whether a move is possible is not C05's subject)
+                self.out.hit("history.move-refused:" + type(e).__name__)
+                return False
+            self.moved_role = step.get("role", "none")
+            self.out.hit("history.move" + (".across-files" if self.where(x) != before else ".same-file"))
+            return True
+        new = [self.el(i) for i in step.get("targets", [])]
+        if any(self.where(e) is None for e in [self.referrer, *new]):
+            self.out.hit("history.member-no-longer-in-the-model")  # e.g. a reference element an earlier assignment replaced
+            return False
+        robj = self.obj(self.referrer)
+        tobjs = [self.obj(e) for e in new]
+        accname = type(self.acc()).__name__
+        want = list(self.intended)
+        before_links = self.link_elems() if self.kind.startswith("link") else []
+        try:
+            if op == "assign":
+                want = new
+                setattr(robj, self.name, tobjs if self.kind not in ("attr-single", "link-single") else tobjs[0])
+                self.lst = None
+            else:
+                if self.lst is None or not step.get("same_list_object"):
+                    self.lst = getattr(robj, self.name)
+                lst = self.lst
+                if op == "insert":
+                    want.insert(step["index"], new[0])
+                    lst.insert(step["index"], tobjs[0])
+                elif op == "append":
+                    want.append(new[0])
+                    lst.append(tobjs[0])
+                elif op == "setitem":
+                    want[step["index"]] = new[0]
+                    lst[step["index"]] = tobjs[0]
+                elif op == "delitem":
+                    del want[step["index"]]
+                    del lst[step["index"]]
+                elif op == "remove":
+                    want = [e for e in want if e is not new[0]]
+                    lst.remove(tobjs[0])
+                else:
+                    raise common.InfraError(f"unknown history step {op}")
+        except common.InfraError:
+            raise
+        except Exception as e:  # noqa: BLE001
+            self.find(f"{accname}.{op}|raises:{type(e).__name__}|moved:{self.moved_role}",
+                      f"{self.name}.{op} on <{self.referrer.tag} {self.referrer.get('id')}> raised {type(e).__name__}: {e}")
+            return False
+        prev, self.intended = self.intended, want
+        self.judge(accname, op, before_links, prev, step)
+        return True
+
+    # -- the statement, on what the library wrote
+    def judge(self, accname: str, op: str, before_links: list, prev=None, step=None):
+        R, view, loader = self.referrer, self.view, self.loader
+        fi = self.where(R)
+        sigbase = f"{accname}.{op}"
+        cur = [(self.where(t), t) for t in self.intended]
+        expect = [view.expected_link(fi, ti, t, None) for ti, t in cur]
+        if self.kind.startswith("link"):
+            links = self.link_elems()
+            texts = [c.get(self.acc().follow) or "" for c in links]
+            written = [i for i, c in enumerate(links) if all(c is not b for b in before_links)]
+            back_ok = all(links[i].get(self.acc().backattr) == f"#{R.get('id')}" for i in written) if self.acc().backattr else True
+        else:
+            raw = R.get(self.acc().attr)
+            toks = fragmenter.split_link_tokens(raw) if raw else []
+            texts = [(f"{t} " if t else "") + f"{p}#{i}" for t, p, i in toks] if toks is not None else None
+            written = list(range(len(texts))) if texts is not None else []
+            back_ok = True
+        self.correspond(fi, cur, texts, written, prev, step)
+        nontrivial = any(ti != fi for ti, _ in cur) and self.moved_role != "none"
+        self.out.case(("history", common.sha(self.case())), None, nontrivial=nontrivial)
+        self.out.hit(f"history.{self.kind}.{op}.moved-{self.moved_role}")
+        desc = f"{self.name}.{op} on <{R.tag} {R.get('id')}> in {'/'.join(view.files[fi][0][1:])} after {[s['op'] for s in self.steps]}"
+        if texts is None or len(texts) != len(self.intended):
+            self.find(f"{sigbase}|written-links|count-or-syntax|moved:{self.moved_role}",
+                      f"{desc}: wrote {texts if texts is not None else R.get(self.acc().attr)!r} for {len(self.intended)} members")
+            return
+        # (a) every link resolves to the intended member: by raw id lookup + the file its path part names, and
+        # through the library's own reader
+        for k, (text, (ti, t)) in enumerate(zip(texts, cur)):
+            ident = text.rsplit("#", 1)[-1]
+            hit = {id(e) for _, e in view.index.get(ident, [])}
+            if hit != {id(t)}:
+                self.find(f"{sigbase}|written-link|names-another-element|moved:{self.moved_role}", f"{desc}: member {k} written as {text!r}, intended {t.get('id')}")
+                return
+        try:
+            if self.kind.startswith("link"):
+                got = [loader.follow_link(R, s) for s in texts]
+            else:
+                got = loader.follow_links(R, R.get(self.acc().attr) or "")
+            back = [getattr(o, "_element", None) for o in ([getattr(self.obj(R), self.name)] if self.kind.endswith("single") else getattr(self.obj(R), self.name))]
+        except Exception as e:  # noqa: BLE001
+            got, back = e, None
+        ok = lambda seq: isinstance(seq, list) and len(seq) == len(self.intended) and all(g is w for g, w in zip(seq, self.intended))  # noqa: E731
+        if not ok(got) or not ok(back):
+            self.find(f"{sigbase}|written-links|do-not-read-back-in-order|moved:{self.moved_role}", f"{desc}: texts {texts}, follow {got!r}, list {back!r}")
+            return
+        # (b) every link the operation wrote is spelled for the CURRENT positions: oracle and create_link
+        for k in written:
+            text, (ti, t), exp = texts[k], cur[k], expect[k]
+            try:
+                cl = loader.create_link(R, t)
+            except Exception as e:  # noqa: BLE001
+                cl = f"{type(e).__name__}"
+            if text == exp and text == cl:
+                continue
+            if text.startswith("#") and ti != fi:
+                cls = "hash-form-to-element-of-another-file"
+            elif not text.startswith("#") and ti == fi:
+                cls = "path-form-to-element-of-the-same-file"
+            elif text != exp:
+                cls = "path-or-type-not-capellas"
+            else:
+                cls = "differs-from-create_link"
+            self.find(f"{sigbase}|written-link|{cls}|moved:{self.moved_role}",
+                      f"{desc}: member {k} ({t.get('id')}, now in {'/'.join(view.files[ti][0][1:])}) written as {text!r}; "
+                      f"Capella's form for the current positions is {exp!r}, create_link gives {cl!r}")
+            return
+        if not back_ok:
+            self.find(f"{sigbase}|written-link|back-attribute|moved:{self.moved_role}", f"{desc}: back attribute is not '#{R.get('id')}'")
+            return
+
+    def correspond(self, fi, cur, texts, written, prev=None, step=None):
+        """correspondence: the model's create_link / __set_links / insert / delete on the CURRENT state (only the
+        elements involved, each in the file that holds it now); for insert, append, remove and del the model is
+        given the members BEFORE the operation and predicts the attribute text itself"""
+        if self.hbatches is None:
+            return
+        view, R = self.view, self.referrer
+        trees = [{"path": parts, "elems": []} for parts, _ in view.files]
+        known: dict[int, list] = {}
+
+        def place(t):
+            if id(t) not in known:
+                ti = self.where(t)
+                trees[ti]["elems"].append({"ids": el_ids(t), "xtype": view.xtypes.get(id(t), self.helpers.xtype_of(t))})
+                known[id(t)] = [ti, len(trees[ti]["elems"]) - 1]
+            return known[id(t)]
+
+        pos = [place(t) for _, t in cur]
+        if self.kind.startswith("link"):
+            if texts is None or len(texts) != len(cur):
+                return
+            queries = [["create", fi, pos[k][0], pos[k][1], None] for k in written]
+            implvals = [{"r": texts[k]} for k in written]
+        else:
+            queries = [["setlinks", fi, pos]]
+            implvals = [{"r": R.get(self.acc().attr)}]
+            op = step["op"] if step else None
+            if self.kind == "attr-list" and prev is not None and all(self.where(t) is not None for t in prev):
+                before = [place(t) for t in prev]
+                if op in ("insert", "append"):
+                    queries.append(["attrinsert", fi, before, step["index"] if op == "insert" else len(prev), place(self.el(step["targets"][0]))])
+                elif op in ("delitem", "remove"):
+                    k = step["index"] if op == "delitem" else next(i for i, t in enumerate(prev) if t.get("id") == step["targets"][0])
+                    queries.append(["attrdelete", fi, before, k])
+                if len(queries) == 2:
+                    implvals.append({"r": R.get(self.acc().attr)})
+        if queries:
+            self.hbatches.append(({"op": "links.batch", "trees": trees, "queries": queries}, queries, implvals, self.case(), "history."))
+
+
+def history_stream(ctx, out, mdl, view: RawView, spec, tag, helpers, hbatches):
+    """three-step histories: (1) a relation of R is written through a link-writing accessor, (2) a member, R itself
+    or an ancestor of one of them is MOVED through the list API into another file of the project (and back),
+    (3) the same relation is edited through every list operation - judged after every write"""
+    rng = ctx.rng
+    main_sem = [fi for fi, (parts, _) in enumerate(view.files) if parts[0] == "\0" and view.suffix(fi) in SEMANTIC]
+    all_sem = [fi for fi in range(len(view.files)) if view.suffix(fi) in SEMANTIC]
+    usable = lambda e: e.get("id") and e.get(XSI_T) and e.get("href") is None and len(view.index.get(e.get("id"), [])) == 1  # noqa: E731
+    pool = {fi: [e for e in view.elems[fi] if usable(e)] for fi in all_sem}
+    pool = {fi: v for fi, v in pool.items() if v}
+    ref_files = [fi for fi in main_sem if fi in pool]
+    if not ref_files:
+        return
+    h0 = History(out, mdl, view, spec, helpers, None)
+    by_type: dict[str, list] = {}
+    for fi in ref_files:
+        for e in pool[fi]:
+            by_type.setdefault(e.get(XSI_T), []).append(e)
+    cls_of: dict[str, type] = {}
+
+    def writers(e):
+        xt = e.get(XSI_T)
+        if xt not in cls_of:
+            try:
+                cls_of[xt] = type(h0.obj(e))
+            except Exception:  # noqa: BLE001
+                cls_of[xt] = None
+        return link_writers(cls_of[xt]) if cls_of[xt] is not None else []
+
+    def move_plan(tries=40):
+        """(x, p, q, list name): x can go from its parent p to the same-typed q that lives in another file"""
+        for _ in range(tries):
+            fi = rng.choice(ref_files)
+            x = rng.choice(pool[fi])
+            p = x.getparent()
+            if p is None or not usable(p) or h0.where(x) is None:
+                continue
+            inside = {id(d) for d in x.iter()}
+            qs = [q for q in by_type.get(p.get(XSI_T), []) if q is not p and id(q) not in inside and h0.where(q) != h0.where(x)]
+            if not qs:
+                continue
+            try:
+                lname = containing_list(h0.obj(p), x)
+            except Exception:  # noqa: BLE001
+                lname = None
+            if lname:
+                return x, p, rng.choice(qs), lname
+        return None
+
+    def pick_target(avoid, near_fi=None, not_below=None):
+        for _ in range(30):
+            fi = near_fi if near_fi in pool and rng.random() < 0.6 else rng.choice(list(pool))
+            e = rng.choice(pool[fi])
+            if all(e is not a for a in avoid) and h0.where(e) is not None and not below(e, not_below):
+                return e
+        return None
+
+    def below(e, anc) -> bool:
+        return anc is not None and any(a is anc for a in e.iterancestors())
+
+    kinds_seen = out.extra.setdefault("history_kinds", {})
+    n_hist = ctx.pick(8, 20) if len(ref_files) > 1 else ctx.pick(3, 6)
+    for hn in range(n_hist):
+        plan = move_plan() if len(ref_files) > 1 else None
+        role = rng.choice(["target", "target", "referrer", "third"]) if plan else "none"
+        x = plan[0] if plan else None
+        sub = [d for d in x.iter() if isinstance(d.tag, str) and usable(d)] if plan else []
+        # the referrer
+        if role == "referrer":
+            R = x if rng.random() < 0.7 else rng.choice(sub)
+        else:
+            near = h0.where(x) if plan and rng.random() < 0.75 else rng.choice(ref_files)
+            R = None
+            want_kind = rng.choice(["attr-list", "attr-list", "link-list", "attr-single", "ends", "link-single"])
+            for _ in range(60):
+                c = rng.choice(pool[near])
+                if h0.where(c) is not None and any(k == want_kind for k, _ in writers(c)) and (not plan or all(c is not d for d in sub)):
+                    R = c
+                    break
+            if R is None:
+                R = pick_target(sub, near_fi=near)
+            if R is None or h0.where(R) not in ref_files:
+                continue
+        ws = writers(R)
+        if not ws:
+            out.hit("history.no-writer")
+            continue
+        rare = [w for w in ws if w[0] != "attr-list"]
+        kind, name = rng.choice(rare) if rare and rng.random() < 0.5 else rng.choice(ws)
+        kinds_seen[kind] = kinds_seen.get(kind, 0) + 1
+        h = History(out, mdl, view, spec, helpers, hbatches)
+        h.do({"op": "start", "referrer": R.get("id"), "acc": name, "kind": kind})
+        fixed = {"attr-single": 1, "link-single": 1, "ends": 2}.get(kind)
+        # an assignment through a LinkAccessor REPLACES the reference elements below the referrer: nothing below the
+        # referrer is a member of such a relation
+        nb = R if kind.startswith("link") else None
+        # (1) first write: members near the referrer; the element that will move is one of them
+        members = []
+        if role in ("target", "third"):
+            members.append(x if rng.random() < 0.7 else rng.choice(sub))
+        k = fixed or rng.randint(max(1, len(members)), 4)
+        while len(members) < k:
+            t = pick_target(members + [R], near_fi=h0.where(R), not_below=nb)
+            if t is None:
+                break
+            members.append(t)
+        if (fixed and len(members) != fixed) or any(below(e, nb) for e in members):
+            continue
+        rng.shuffle(members)
+
+        def edit(nops):
+            for _ in range(nops):
+                cur = list(h.intended)
+                choices = ["assign"]
+                if kind in ("attr-list", "link-list"):
+                    choices += ["insert", "insert", "append", "append", "setitem"] + (["delitem", "remove"] if len(cur) > 1 else [])
+                elif kind == "ends":
+                    choices += ["setitem", "setitem"]
+                op = rng.choice(choices)
+                same = rng.random() < 0.4
+                t = pick_target(cur + [R], near_fi=h0.where(R), not_below=nb)
+                if op == "assign":
+                    keep = rng.sample(cur, rng.randint(0, len(cur))) if not fixed else rng.sample(cur, rng.randint(0, min(len(cur), fixed)))
+                    newl = keep + ([t] if t is not None and (rng.random() < 0.6 or not keep) else [])
+                    while fixed and len(newl) < fixed:
+                        extra = pick_target(newl + [R], not_below=nb)
+                        if extra is None:
+                            return False
+                        newl.append(extra)
+                    if fixed:
+                        newl = newl[:fixed]
+                    if not newl and kind in ("attr-single", "link-single"):
+                        return False
+                    step = {"op": "assign", "targets": [e.get("id") for e in newl]}
+                elif op in ("insert", "append", "setitem"):
+                    if t is None:
+                        continue
+                    step = {"op": op, "targets": [t.get("id")], "same_list_object": same}
+                    if op == "insert":
+                        step["index"] = rng.randint(0, len(cur))
+                    if op == "setitem":
+                        if not cur:
+                            continue
+                        step["index"] = rng.randrange(len(cur))
+                else:
+                    # remove / delete ANOTHER member than the moved one when there is one
+                    others = [i for i, e in enumerate(cur) if not any(e is d for d in sub)] or list(range(len(cur)))
+                    i = rng.choice(others)
+                    step = {"op": op, "same_list_object": same}
+                    if op == "delitem":
+                        step["index"] = i
+                    else:
+                        step["targets"] = [cur[i].get("id")]
+                if not h.do(step):
+                    return False
+            return True
+
+        if not h.do({"op": "assign", "targets": [e.get("id") for e in members]}):
+            continue
+        if rng.random() < 0.3 and not edit(1):
+            continue
+        if not plan:
+            edit(rng.randint(1, 3))
+            continue
+        # (2) the move into another file, (3) edits; then back, and edits again
+        x, p, q, lname = plan
+        if not h.do({"op": "move", "x": x.get("id"), "to": q.get("id"), "list": lname, "index": rng.randint(0, 3), "role": role}):
+            continue
+        if not edit(rng.randint(1, 3)):
+            continue
+        if rng.random() < 0.6:
+            if not h.do({"op": "move", "x": x.get("id"), "to": p.get("id"), "list": lname, "index": rng.randint(0, 3), "role": role + "-and-back"}):
+                continue
+            edit(rng.randint(1, 2))
 
 
 IDATTR_SCRIPT = r"""
@@ -854,6 +1313,13 @@ def _replay(ctx: Ctx, case: dict):
                     return fi, e
         raise LookupError(rep)
 
+    if kind == "history":
+        o = Outcome()
+        h = History(o, mdl, view, spec, helpers, None)
+        for step in case["steps"]:
+            if not h.do(dict(step)):
+                break
+        return h.failed[0] if h.failed else None
     if kind == "pair":
         fi, a = find(case["from"])
         ti, b = find(case["to"])
